@@ -217,7 +217,40 @@ class NpSym:
     # ------------------------------------------------------------------ entry
     def call_function(self, mod, func, args=(), kwargs=None):
         node = func if isinstance(func, ast.AST) else mod.func(func)
-        return self._invoke(FuncRef(mod, node), list(args), dict(kwargs or {}))
+        qual = func if isinstance(func, str) else next((q for q, n in mod.functions.items() if n is node), node.name)
+        return self._invoke(FuncRef(mod, node, qual), list(args), dict(kwargs or {}))
+
+    def super_method(self, mod, cls_name, method, selfobj):
+        """the implementation of `method` that super() of class `cls_name` resolves to (single inheritance chains of repository classes), bound to selfobj"""
+        seen = set()
+        todo = [(mod, cls_name)]
+        first = True
+        while todo:
+            m, c = todo.pop(0)
+            if (m.rel, c) in seen or c not in m.classes:
+                continue
+            seen.add((m.rel, c))
+            if not first:
+                q = f"{c}.{method}"
+                if q in m.functions:
+                    fr = FuncRef(m, m.functions[q], q)
+                    return lambda frame, *a, **k: self._invoke(fr, [selfobj] + list(a), k)
+            first = False
+            for b in m.classes[c].bases:
+                bn = b.id if isinstance(b, ast.Name) else b.attr if isinstance(b, ast.Attribute) else None
+                if bn is None:
+                    continue
+                if bn in m.classes:
+                    todo.append((m, bn))
+                else:
+                    for st in m.tree.body:
+                        if isinstance(st, ast.ImportFrom) and any((al.asname or al.name) == bn for al in st.names):
+                            tm = self._resolve_import(m, st)
+                            if tm is not None:
+                                todo.append((tm, bn))
+        if method == "__init__":
+            return lambda frame, *a, **k: None          # torch.nn.Module / object constructor
+        raise AnalysisError(f"npsym: super().{method} of {cls_name} not found among the repository classes")
 
     def _invoke(self, fr: FuncRef, args, kwargs):
         node = fr.node
@@ -233,6 +266,8 @@ class NpSym:
         defaults = a.defaults
         dstart = len(params) - len(defaults)
         frame = _Frame(self, fr.mod, env)
+        frame.qual = fr.qual
+        frame.self_name = params[0] if params else None
         for i, p in enumerate(params):
             if p in env:
                 continue
@@ -746,6 +781,12 @@ class _Frame:
 
     def attribute(self, e):
         np = self.np
+        # super().method
+        if isinstance(e.value, ast.Call) and isinstance(e.value.func, ast.Name) and e.value.func.id == "super" and "super" not in self.I.stubs and "super" not in self.env:
+            q = getattr(self, "qual", None) or ""
+            if "." not in q or getattr(self, "self_name", None) not in self.env:
+                raise AnalysisError("npsym: super() outside a method")
+            return self.I.super_method(self.mod, q.rsplit(".", 1)[0], e.attr, self.env[self.self_name])
         # torch.<x>
         base = self.ev(e.value)
         a = e.attr
